@@ -1,0 +1,72 @@
+//! Verification hook (cargo feature `zvt_verif`, off by default).
+//!
+//! Replaces the TCP socket used by the reconnecting stream with an in-memory
+//! connector, so a simulated terminal and tokio's paused clock can drive the
+//! real client deterministically. Nothing in here is compiled without the
+//! feature.
+use std::future::Future;
+use std::io;
+use std::net::SocketAddrV4;
+use std::pin::Pin;
+use std::sync::Mutex;
+use std::task::{Context, Poll};
+use tokio::io::{AsyncRead, AsyncWrite, ReadBuf};
+
+/// What a connection must be able to do.
+pub trait Duplex: AsyncRead + AsyncWrite + Unpin + Send {}
+impl<T: AsyncRead + AsyncWrite + Unpin + Send> Duplex for T {}
+
+pub type ConnectFuture = Pin<Box<dyn Future<Output = io::Result<Box<dyn Duplex>>> + Send>>;
+pub type Connector = Box<dyn FnMut(SocketAddrV4) -> ConnectFuture + Send>;
+
+static CONNECTOR: Mutex<Option<Connector>> = Mutex::new(None);
+
+/// Installs the process-wide connector which hands out the connections.
+pub fn install_connector(connector: Connector) {
+    *CONNECTOR.lock().unwrap() = Some(connector);
+}
+
+/// Stand-in for [tokio::net::TcpStream].
+pub struct VerifStream(Box<dyn Duplex>);
+
+impl VerifStream {
+    /// Same shape as [tokio::net::TcpStream::connect].
+    pub async fn connect(addr: SocketAddrV4) -> io::Result<Self> {
+        let future = {
+            let mut guard = CONNECTOR.lock().unwrap();
+            match guard.as_mut() {
+                Some(connector) => connector(addr),
+                None => return Err(io::Error::new(io::ErrorKind::NotConnected, "no connector")),
+            }
+        };
+        Ok(Self(future.await?))
+    }
+}
+
+impl AsyncRead for VerifStream {
+    fn poll_read(
+        mut self: Pin<&mut Self>,
+        cx: &mut Context<'_>,
+        buf: &mut ReadBuf<'_>,
+    ) -> Poll<io::Result<()>> {
+        Pin::new(&mut self.0).poll_read(cx, buf)
+    }
+}
+
+impl AsyncWrite for VerifStream {
+    fn poll_write(
+        mut self: Pin<&mut Self>,
+        cx: &mut Context<'_>,
+        buf: &[u8],
+    ) -> Poll<io::Result<usize>> {
+        Pin::new(&mut self.0).poll_write(cx, buf)
+    }
+
+    fn poll_flush(mut self: Pin<&mut Self>, cx: &mut Context<'_>) -> Poll<io::Result<()>> {
+        Pin::new(&mut self.0).poll_flush(cx)
+    }
+
+    fn poll_shutdown(mut self: Pin<&mut Self>, cx: &mut Context<'_>) -> Poll<io::Result<()>> {
+        Pin::new(&mut self.0).poll_shutdown(cx)
+    }
+}
